@@ -144,7 +144,16 @@ def _function_over_one_var(repr_func, raw_func, x, out=None, out_like=None, sizi
     _scaled = x.scaled or (out is not None and out.scaled) or (out_like is not None and out_like.scaled)
     if method == 'repr' or _scaled or n_frac is None:
         raw = False
-        val = repr_func(x.get_val(), **kwargs)
+        x_val = x.get_val()
+        if getattr(repr_func, '__name__', '') in ('sum', 'cumsum', 'trace', 'prod', 'cumprod') \
+                and isinstance(x_val, (np.ndarray, np.generic)) and x_val.dtype.kind in 'iu' and np.size(x_val):
+            # integer values whose sum or product may leave the 64 bits integers of numpy (which wrap around silently): python integers.
+            # The bits are counted on the values themselves (the value of a scaled operand is not bounded by its word)
+            _bits = max(abs(int(np.max(x_val))), abs(int(np.min(x_val)))).bit_length()
+            _bits = _bits * int(np.size(x_val)) if repr_func.__name__ in ('prod', 'cumprod') else _bits + int(np.size(x_val)).bit_length()
+            if _bits >= 62:
+                x_val = np.asarray(x_val).astype(object)
+        val = repr_func(x_val, **kwargs)
     elif method == 'raw':
         raw = True
         kwargs['n_frac'] = n_frac
@@ -209,13 +218,13 @@ def _function_over_two_vars(repr_func, raw_func, x, y, out=None, out_like=None, 
         raw = False
         x_val, y_val = _repr_val(x), _repr_val(y)
         if getattr(repr_func, '__name__', '') in ('add', 'subtract', 'multiply', 'dot') \
-                and all(isinstance(v, (np.ndarray, np.generic)) and v.dtype.kind == 'i' for v in (x_val, y_val)):
+                and all((isinstance(v, (np.ndarray, np.generic)) and v.dtype.kind == 'i') or type(v) is int for v in (x_val, y_val)):
             # integer values whose sum or product may leave the 64 bits integers of numpy (which wrap around silently): python integers.
             # The bits are counted on the values themselves (the value of a scaled operand is not bounded by its word); a dot product
             # accumulates: the bits of the number of terms of one sum count too
             _bits = 0
             for v in (x_val, y_val):
-                _bits += max(abs(int(np.max(v))), abs(int(np.min(v)))).bit_length() if np.size(v) else 0
+                _bits += (abs(v).bit_length() if type(v) is int else max(abs(int(np.max(v))), abs(int(np.min(v)))).bit_length()) if np.size(v) else 0
             if getattr(repr_func, '__name__', '') == 'dot':
                 _bits += int(np.shape(x_val)[-1] if np.ndim(x_val) else 1).bit_length()
             if _bits >= 62:
